@@ -1,6 +1,7 @@
 import Pcore.Proofs.LoaderSeq
 import Pcore.Proofs.LoaderTS
 import Pcore.Proofs.LoaderDep
+import Pcore.Model.LoaderKey
 /-!
 # C12 — Loader resolution: parents first, bindings are write-once, misses are not sticky
 
@@ -51,8 +52,14 @@ Full statement / proved / missing
   FULL statement `C12_dep_load_full` (a lookup answers what the dependencies bind whenever the dependency loader holds no
   value, in every reachable state) is FALSE: `C12_dep_miss_sticky` (known finding C12-dependency-miss-sticky); so is
   "discovery = union over the dependencies" (`C12_dep_discover_union_full`, `C12_dep_discover_unloaded`).
+* letter case: `lower` is Go's `strings.ToLower` (`unicode.ToLower` over the case table regenerated from $GOROOT; idempotent
+  by `toLower_idem` + `caseRanges_lowerOK`), so `C12_case` / `C12_case_ops` speak about the real folding.  The typed name as
+  a struct with caches (`Model/LoaderKey.lean`): `C12_key_is_canon`; `C12_key_derived_fresh_partial` — a name derived by
+  `Child()`/`Parent()` from a name without cached key has the right key.                                            proved
+  FULL statement `C12_key_derived_full` (also with a cached key) is FALSE: `C12_key_derived_wrong`,
+  `C12_key_derived_fault` (known finding C12-typedname-derived-key); missing: the cached, length-preserving case.
 * missing / outside the model: type-set loaders with children or references or beside dependency loaders, dependency
-  loaders over anything but plain loaders, file-based loaders (C15); `strings.ToLower` beyond ASCII; the static loader
+  loaders over anything but plain loaders, file-based loaders (C15); names that are not valid UTF-8; the static loader
   level (assumed disjoint from the names used, checked by the harness per line).  Tie: differential execution of whole
   histories (harness/c12).
 -/
@@ -575,6 +582,94 @@ theorem C12_dep_discover_history :
     (runD depDps (Sys.init depPs) [.define 1 nb (.ty 1), .discover 3 (fun _ => true), .has 3 nb, .load 3 nb,
       .discover 3 (fun _ => true), .has 4 nb]).2 =
       [.ok, .keys [], .bool false, .found (.ty 1), .keys [canon nb], .bool true] := by decide +kernel
+
+/-! ### typed names beyond ASCII, and the typed name as a struct with caches (`Model/LoaderKey.lean`) -/
+
+-- `C12_case` is about Go's `strings.ToLower` over the table regenerated from $GOROOT: É/é, the Kelvin sign / k / K and
+-- İ / i / I denote one entry each (and the byte length of the key differs from the name's for two of them)
+example : canon ⟨runtimeAuthority, "type", "\u00c9"⟩ = canon ⟨runtimeAuthority, "type", "\u00e9"⟩ ∧
+    canon ⟨runtimeAuthority, "type", "\u212a"⟩ = canon ⟨runtimeAuthority, "type", "K"⟩ ∧
+    canon ⟨runtimeAuthority, "type", "\u0130x"⟩ = canon ⟨runtimeAuthority, "type", "Ix"⟩ ∧
+    canon ⟨runtimeAuthority, "type", "\u0131"⟩ ≠ canon ⟨runtimeAuthority, "type", "I"⟩ := by decide +kernel
+example : eqFold ⟨runtimeAuthority, "type", "M::\u212a"⟩ ⟨runtimeAuthority, "Type", "::m::k"⟩ :=
+  ⟨by decide +kernel, by decide +kernel, by decide +kernel⟩
+
+/-- the byte-level key of `Model/LoaderKey.lean` is the UTF-8 encoding of `canon` -/
+theorem C12_key_is_canon (ns name auth : String) :
+    (TN.mk' ns.toList name.toList auth.toList).freshKey = enc (canon ⟨auth, ns, name⟩).toList := by
+  simp [TN.freshKey, TN.mk', canon, lower, lowerL, stripColons, String.toList_append, String.toList_ofList]
+
+/-- FULL STATEMENT ("one name, one key"): a typed name derived with `Child()` / `Parent()` from a name made by
+    `newTypedName2` — whether or not `MapKey()` was called on that name before — has the key of a fresh typed name of its
+    three strings, and deriving it never faults.  FALSE: `C12_key_derived_wrong`, `C12_key_derived_fault` (known finding
+    C12-typedname-derived-key).  Proved part: `C12_key_derived_fresh_partial` (no key cached before).  Missing: the case of
+    a cached key when lower-casing keeps the UTF-8 length of every letter of the three strings (all-ASCII names among
+    them) — there the byte offsets are right; validated by differential execution only. -/
+def C12_key_derived_full : Prop :=
+  ∀ (ns name auth : List Char) (keyed : Bool) (t' : TN),
+    let t := if keyed then (TN.mk' ns name auth).mapKey.1 else TN.mk' ns name auth
+    t.child ≠ .fault ∧ t.parent ≠ .fault ∧ ((t.child = .ok t' ∨ t.parent = .ok t') → t'.mapKey.2 = t'.freshKey)
+
+/-- without a cached key nothing is sliced: the derived name has no cached key either, so its key is computed afresh -/
+theorem C12_key_derived_fresh_partial (t t' : TN) (h : t.canonical = []) :
+    t.child ≠ .fault ∧ t.parent ≠ .fault ∧ ((t.child = .ok t' ∨ t.parent = .ok t') → t'.mapKey.2 = t'.freshKey) := by
+  have hc : ∀ d, t.child = d → d ≠ .fault ∧ ∀ x, d = .ok x → x.canonical = [] := by
+    intro d hd
+    unfold TN.child TN.childN at hd
+    simp only [h, if_true] at hd
+    subst hd
+    split
+    · split
+      · exact ⟨by simp, by simp⟩
+      · refine ⟨by simp, ?_⟩
+        intro x hx
+        simp only [Derived.ok.injEq] at hx
+        rw [← hx]
+    · exact ⟨by simp, by simp⟩
+  have hp : ∀ d, t.parent = d → d ≠ .fault ∧ ∀ x, d = .ok x → x.canonical = [] := by
+    intro d hd
+    unfold TN.parent at hd
+    simp only [h, if_true] at hd
+    subst hd
+    split
+    · exact ⟨by simp, by simp⟩
+    · refine ⟨by simp, ?_⟩
+      intro x hx
+      simp only [Derived.ok.injEq] at hx
+      rw [← hx]
+  refine ⟨(hc _ rfl).1, (hp _ rfl).1, ?_⟩
+  have hkey : t'.canonical = [] → t'.mapKey.2 = t'.freshKey := by
+    intro h'; unfold TN.mapKey; simp [h']
+  rintro (h1 | h1)
+  · exact hkey ((hc _ rfl).2 t' h1)
+  · exact hkey ((hp _ rfl).2 t' h1)
+
+def rtChars : List Char := runtimeAuthority.toList
+-- the hypothesis is satisfiable, the conclusion is not vacuous: `A::b` without cached key has the child `b`
+example : (TN.mk' "type".toList "A::b".toList rtChars).canonical = [] ∧
+    (TN.mk' "type".toList "A::b".toList rtChars).child = .ok (TN.mk' "type".toList "b".toList rtChars) := by decide +kernel
+-- … and with ASCII names the cached key is sliced correctly
+def keyedChild : TN :=
+  { ns := "type".toList, auth := rtChars, name := "Cd::e".toList, parts := none,
+    canonical := enc (runtimeAuthority ++ "/type/cd::e").toList }
+example : ((TN.mk' "type".toList "Ab::Cd::e".toList rtChars).mapKey.1).child = .ok keyedChild ∧
+    keyedChild.mapKey.2 = keyedChild.freshKey := by decide +kernel
+
+/-- ONE NAME, TWO KEYS: the Kelvin sign (3 bytes) lower-cases to `k` (1 byte); after `MapKey()` the child of `Kx::Foo`
+    carries the cached key `…/type/o` while a fresh `Foo` has `…/type/foo`; the parent `Kx` carries `…/type/kx::` -/
+theorem C12_key_derived_wrong : ¬ C12_key_derived_full := by
+  intro h
+  have := (h "type".toList "\u212ax::Foo".toList rtChars true
+    { ns := "type".toList, auth := rtChars, name := "Foo".toList, parts := none,
+      canonical := enc (runtimeAuthority ++ "/type/o").toList }).2.2
+  revert this
+  decide +kernel
+
+/-- … and with such a letter in the AUTHORITY the slice expression is out of range: `Child()` panics -/
+theorem C12_key_derived_fault :
+    ((TN.mk' "type".toList "A::B".toList "http://\u212a.example".toList).mapKey.1).child = .fault ∧
+    (TN.mk' "type".toList "A::B".toList "http://\u212a.example".toList).child =
+      .ok (TN.mk' "type".toList "B".toList "http://\u212a.example".toList) := by decide +kernel
 
 /-! ### the defects that were repaired, as witnesses on the pre-fix definitions -/
 
